@@ -72,7 +72,11 @@ func vC04Txn(bkt *vBucket, kinds []int) (acked bool) {
 	return true
 }
 
+// vFreshRows: what a fresh read-only connection sees (an oracle: the order in
+// which it merges several current versions is not explored here, C01 does that).
 func vFreshRows(bkt *vBucket) ([]vRow, error) {
+	symShuffleMode(1)
+	defer symShuffleMode(0)
 	r, err := vOpen(bkt.fork().client(7), vTableOpts{bf: 2, readOnly: true}, 900)
 	if err != nil {
 		return nil, err
